@@ -657,6 +657,73 @@ static int try_eval_bool_const(ASTNode *expr) {
 }
 
 /* ============================================================================
+ * HELPER: Evaluate an integer constant expression with 64-bit wrap-around
+ * The C compiler folds such an expression too, and rejects it when it overflows
+ * (-Werror=overflow); the language defines wrap-around.
+ * Returns true when expr consists of integer constants and + - * / % only;
+ * *overflowed is set when a result wrapped.
+ * ============================================================================ */
+
+static bool try_eval_int_const(ASTNode *expr, Environment *env, int64_t *out, bool *overflowed) {
+    if (!expr) return false;
+
+    if (expr->type == AST_NUMBER) {
+        *out = (int64_t)expr->as.number;
+        return true;
+    }
+    if (expr->type == AST_IDENTIFIER) {
+        /* Same condition as the constant inlining in build_expr */
+        Symbol *sym = env_get_var(env, expr->as.identifier);
+        if (sym && !sym->is_mut && sym->value.type == VAL_INT) {
+            *out = (int64_t)sym->value.as.int_val;
+            return true;
+        }
+        return false;
+    }
+    if (expr->type != AST_PREFIX_OP) return false;
+
+    TokenType op = expr->as.prefix_op.op;
+    int64_t a = 0, b = 0, r = 0;
+    if (expr->as.prefix_op.arg_count == 1 && op == TOKEN_MINUS) {
+        if (!try_eval_int_const(expr->as.prefix_op.args[0], env, &a, overflowed)) return false;
+        if (a == INT64_MIN) *overflowed = true;
+        *out = (int64_t)(0 - (uint64_t)a);
+        return true;
+    }
+    if (expr->as.prefix_op.arg_count != 2) return false;
+    if (op != TOKEN_PLUS && op != TOKEN_MINUS && op != TOKEN_STAR && op != TOKEN_SLASH && op != TOKEN_PERCENT) return false;
+    if (!try_eval_int_const(expr->as.prefix_op.args[0], env, &a, overflowed)) return false;
+    if (!try_eval_int_const(expr->as.prefix_op.args[1], env, &b, overflowed)) return false;
+
+    switch (op) {
+        case TOKEN_PLUS:
+            r = (int64_t)((uint64_t)a + (uint64_t)b);
+            if (((a ^ r) & (b ^ r)) < 0) *overflowed = true;
+            break;
+        case TOKEN_MINUS:
+            r = (int64_t)((uint64_t)a - (uint64_t)b);
+            if (((a ^ b) & (a ^ r)) < 0) *overflowed = true;
+            break;
+        case TOKEN_STAR:
+            r = (int64_t)((uint64_t)a * (uint64_t)b);
+            if ((a == -1 && b == INT64_MIN) || (b == -1 && a == INT64_MIN)) *overflowed = true;
+            else if (a != 0 && r / a != b) *overflowed = true;
+            break;
+        default:
+            if (b == 0) return false;   /* stays the run-time error it is */
+            if (b == -1) {
+                if (a == INT64_MIN) *overflowed = true;
+                r = (op == TOKEN_SLASH) ? (int64_t)(0 - (uint64_t)a) : 0;
+            } else {
+                r = (op == TOKEN_SLASH) ? a / b : a % b;
+            }
+            break;
+    }
+    *out = r;
+    return true;
+}
+
+/* ============================================================================
  * PASS 1: BUILD WORK ITEMS (Expression Transpiler)
  * Traverses AST and appends work items in correct output order
  * ============================================================================ */
@@ -752,7 +819,19 @@ static void build_expr(WorkList *list, ASTNode *expr, Environment *env) {
         case AST_PREFIX_OP: {
             TokenType op = expr->as.prefix_op.op;
             int arg_count = expr->as.prefix_op.arg_count;
-            
+
+            /* A constant expression that overflows is emitted as its wrapped value (cc would reject it) */
+            int64_t folded = 0;
+            bool overflowed = false;
+            if (try_eval_int_const(expr, env, &folded, &overflowed) && overflowed) {
+                if (folded == INT64_MIN) {
+                    emit_literal(list, "(-9223372036854775807LL - 1LL)");
+                } else {
+                    emit_formatted(list, "%lldLL", (long long)folded);
+                }
+                break;
+            }
+
             if (arg_count == 2) {
                 /* Binary operator */
                 if (op == TOKEN_PLUS || op == TOKEN_MINUS || op == TOKEN_STAR || op == TOKEN_SLASH || op == TOKEN_PERCENT) {
